@@ -45,8 +45,10 @@ var properties = map[string]propSpec{
 			{Engine: "A", Scenario: "general", Quick: 24, Thorough: 300},
 			{Engine: "A", Scenario: "election", Quick: 12, Thorough: 150},
 			{Engine: "A", Scenario: "everything", Quick: 8, Thorough: 100},
+			{Engine: "A", Scenario: "stale-candidate", Quick: 6, Thorough: 60},
+			{Engine: "A", Scenario: "stale-suffix-install", Params: "seg=1024", Quick: 4, Thorough: 40},
 		},
-		Rule:       "seeded live-cluster runs with continuous client updates under partitions, stalls, crashes, restarts, snapshots and membership changes; non-trivial if at least 2 leaders were elected after bootstrap and at least 50 entries were observed committed; distinct = distinct abstract trace",
+		Rule:       "directed scenarios (stale ex-leader with a long uncommitted tail campaigning against a voter with fewer but newer entries; stale suffix covering a snapshot index) plus seeded live-cluster runs with continuous client updates under partitions, stalls, crashes, restarts, snapshots and membership changes; non-trivial if at least 2 leaders were elected after bootstrap and at least 50 entries were observed committed; distinct = distinct abstract trace",
 		Nontrivial: all(ge("leaders-elected", 3), ge("committed-entries", 50)),
 		MinQuick:   20, MinThorough: 200,
 		Counters:    []string{"committed-entries", "commit-advances", "leader-commit-advances", "commit-agreements", "leader-completeness-checks", "leaders-elected", "truncations", "log-resets", "compactions", "crashes", "faults"},
@@ -59,8 +61,9 @@ var properties = map[string]propSpec{
 			{Engine: "A", Scenario: "load", Quick: 20, Thorough: 250},
 			{Engine: "A", Scenario: "snapshot", Quick: 14, Thorough: 200},
 			{Engine: "A", Scenario: "general", Quick: 8, Thorough: 100},
+			{Engine: "A", Scenario: "stale-suffix-install", Params: "seg=1024", Quick: 6, Thorough: 60},
 		},
-		Rule:       "seeded live-cluster runs with pipelined multi-client load, leader changes, snapshots, installs, restarts; recording state machine with unique command ids; non-trivial if at least 200 Update calls on at least 3 state-machine incarnations were checked; distinct = distinct abstract trace",
+		Rule:       "directed scenario (node with an uncommitted old-term suffix brought up to date by snapshot installation) plus seeded live-cluster runs with pipelined multi-client load, leader changes, snapshots, installs, restarts; recording state machine with unique command ids; non-trivial if at least 200 Update calls on at least 3 state-machine incarnations were checked; distinct = distinct abstract trace",
 		Nontrivial: all(ge("fsm-updates", 200), ge("incarnations", 3)),
 		MinQuick:   20, MinThorough: 200,
 		Counters:    []string{"fsm-updates", "applied", "global-sequence-length", "incarnations", "fsm-restores", "restores-checked-against-ledger", "snapshots-taken", "crash-restarts", "graceful-restarts", "leaders-elected", "log-dumps"},
@@ -72,6 +75,8 @@ var properties = map[string]propSpec{
 		Plan: []planEntry{
 			{Engine: "A", Scenario: "general", Quick: 20, Thorough: 250},
 			{Engine: "A", Scenario: "election", Quick: 12, Thorough: 150},
+			{Engine: "A", Scenario: "stale-candidate", Quick: 4, Thorough: 40},
+			{Engine: "A", Scenario: "stale-suffix-install", Params: "seg=1024", Quick: 4, Thorough: 40},
 		},
 		Rule:       "seeded live-cluster runs producing divergent uncommitted suffixes (isolated leaders, stalls released late, crashes) then healing; every append / reopened log / final dump is a sighting in a global (index, term) ledger; non-trivial if at least one truncation or log reset happened and at least 500 sightings were re-checked against the ledger; distinct = distinct abstract trace",
 		Nontrivial: all(ge("ledger-rechecks", 500)),
@@ -249,5 +254,23 @@ func init() {
 		Prefixes:     []string{"op:images", "point:"},
 		SampleTopics: []string{"program"},
 		Assumptions:  []string{"directory operations (create, remove) are durable when they return", "power loss is modelled at 4 KiB page granularity on top of the last completed msync of each file", "kill model: every write reaches the file"},
+	}
+
+	properties["C09"] = propSpec{
+		Level: "exploration",
+		Plan: []planEntry{
+			{Engine: "A", Scenario: "snapshot", Quick: 20, Thorough: 250},
+			{Engine: "A", Scenario: "stale-suffix-install", Params: "seg=1024", Quick: 8, Thorough: 80},
+			{Engine: "A", Scenario: "crashy", Quick: 6, Thorough: 80},
+		},
+		Rule: "seeded live-cluster runs with snapshots on leaders and followers, compaction over 1-4 KiB segments, lagging / isolated followers brought back by entries or by snapshot installation, restarts and crashes; directed: stale suffix covering the snapshot index; every snapshot file is read back (label + id list) when it is published or stored and compared with the global applied sequence and the committed log; unmapped segments are quarantined (PROT_NONE) so that a read through a stale view faults; non-trivial if at least one snapshot file was checked and at least one compaction or installation happened; distinct = distinct abstract trace",
+		Nontrivial: func(st map[string]int64) bool {
+			return st["snapshot-files-seen"] >= 1 && (st["compactions"] >= 1 || st["log-resets"] >= 1)
+		},
+		MinQuick: 16, MinThorough: 150,
+		Counters:     []string{"snapshot-files-seen", "snapshot-contents-checked-against-ledger", "labels-checked", "compactions", "log-resets", "fsm-restores", "restores-checked-against-ledger", "snapshots-taken", "crash-restarts", "graceful-restarts", "converged"},
+		Prefixes:     []string{"snapshot-installs:"},
+		SampleTopics: []string{"snapshot"},
+		Assumptions:  stdAssumptions,
 	}
 }
